@@ -3,7 +3,7 @@ import json
 import os
 
 import codecgen as cg
-from common import (Rng, assumptions, coq_bytes, coq_eval, coq_make, harness_build, hygiene, load_known, log,
+from common import (coqchk, Rng, assumptions, coq_bytes, coq_eval, coq_make, harness_build, hygiene, load_known, log,
                     regen, run_harness, seed, write_evidence, write_replay, TRUSTED_BASE, VERIF)
 
 PROP = "C11"
@@ -112,6 +112,10 @@ def run(tier, replay=None):
     elif open_thms:
         broken.append("theorems not closed under the global context: %s" % {t: closed.get(t) for t in open_thms})
 
+    if thorough and ok_props:
+        okc, summ = coqchk(PROP)
+        if not okc:
+            broken.append("independent checker: " + summ)
     for prof in ("debug", "release"):
         okb, bout = harness_build(prof)
         if not okb:
